@@ -103,6 +103,29 @@ def c01(tier, seed):
     return r
 
 
+def c02(tier, seed):
+    rng = random.Random(seed)
+    g1 = gen.g1_cases(seed, _sizes(tier, 500, 8000))
+    g2 = gen.g2_cases(seed + 1, _sizes(tier, 400, 6000), stack=True)
+    for c in g1 + g2:
+        r = rng.random()
+        if r < 0.5:
+            c["passes"] = None
+        elif r < 0.75:
+            c["passes"] = [rng.choice(gen.PASS_NAMES)]
+        else:
+            c["passes"] = [rng.choice(gen.PASS_NAMES) for _ in range(rng.randint(0, 6))]
+    r = parse_family("C02", tier, seed, [
+        ("X", {"cases": gen.opt_cases(seed + 5, _sizes(tier, 900, 12000))}),
+        ("X", {"cases": g1 + g2}),
+        ("G3", {}),
+    ], ["C02"])
+    r.rule = RULE_PARSE + (" Each grammar comes with an optimizer configuration: the default pipeline, one pass alone, or a "
+                           "seeded subset / permutation / repetition of DEFAULT_OPTIMIZER_PASSES; a family of grammars is "
+                           "built around the rewrite triggers. Judge: success/failure and tree of O vs I and of OG vs IG.")
+    return r
+
+
 def c03(tier, seed):
     cases = [c for c in gen.g1_cases(seed, _sizes(tier, 1400, 20000)) if core_only(c["grammar"])]
     r = parse_family("C03", tier, seed, [
@@ -218,4 +241,19 @@ def c11(tier, seed):
     return m.check("C11", tier, seed)
 
 
-CHECKS = {"C10": c10, "C11": c11, "C12": c12, "C18": c18, "C09": c09, "C14": c14, "C01": c01, "C03": c03, "C04": c04, "C05": c05, "C06": c06, "C07": c07, "C13": c13, "C16": c16}
+def c08(tier, seed):
+    import c08 as m
+    return m.check(tier, seed)
+
+
+def c15(tier, seed):
+    import c15 as m
+    return m.check(tier, seed)
+
+
+def c17(tier, seed):
+    import c17 as m
+    return m.check(tier, seed)
+
+
+CHECKS = {"C17": c17, "C15": c15, "C08": c08, "C02": c02, "C10": c10, "C11": c11, "C12": c12, "C18": c18, "C09": c09, "C14": c14, "C01": c01, "C03": c03, "C04": c04, "C05": c05, "C06": c06, "C07": c07, "C13": c13, "C16": c16}
